@@ -660,14 +660,25 @@ func (d *decoder) parseDataFields(dm *defmsg, knownMsg bool, msgv reflect.Value)
 			// to that width. Native fields are parsed from the dsize
 			// bytes read, using the definition's base type.
 			psize := pfield.t.BaseType().Size()
+			fill := byte(0x00)
+			if dfield.btype.Signed() && dsize > 0 {
+				// Sign extend.
+				msb := d.tmp[dsize-1]
+				if dm.arch != le {
+					msb = d.tmp[0]
+				}
+				if msb&0x80 != 0 {
+					fill = 0xFF
+				}
+			}
 			if dm.arch == le {
 				for j := dsize; j < psize; j++ {
-					d.tmp[j] = 0x00
+					d.tmp[j] = fill
 				}
 			} else {
 				copy(d.tmp[padding:psize], d.tmp[:dsize])
 				for j := 0; j < padding; j++ {
-					d.tmp[j] = 0x00
+					d.tmp[j] = fill
 				}
 			}
 		}
@@ -724,15 +735,15 @@ func (d *decoder) parseFitField(dm *defmsg, dfield fieldDef, fieldv reflect.Valu
 	case types.BaseByte, types.BaseEnum, types.BaseUint8, types.BaseUint8z:
 		fieldv.SetUint(uint64(d.tmp[0]))
 	case types.BaseSint8:
-		fieldv.SetInt(int64(d.tmp[0]))
+		fieldv.SetInt(int64(int8(d.tmp[0])))
 	case types.BaseSint16:
-		i16 := int64(dm.arch.Uint16(d.tmp[:dsize]))
+		i16 := int64(int16(dm.arch.Uint16(d.tmp[:dsize])))
 		fieldv.SetInt(i16)
 	case types.BaseUint16, types.BaseUint16z:
 		u16 := uint64(dm.arch.Uint16(d.tmp[:dsize]))
 		fieldv.SetUint(u16)
 	case types.BaseSint32:
-		i32 := int64(dm.arch.Uint32(d.tmp[:dsize]))
+		i32 := int64(int32(dm.arch.Uint32(d.tmp[:dsize])))
 		fieldv.SetInt(i32)
 	case types.BaseUint32, types.BaseUint32z:
 		u32 := uint64(dm.arch.Uint32(d.tmp[:dsize]))
